@@ -217,6 +217,7 @@ type c36Ev struct {
 	call *ast.CallExpr
 	expr ast.Expr // stored expression
 	node ast.Node
+	neg  bool // guard: the arm goes on where the condition holds (`if c { … } else { return err }`)
 }
 
 func (f *c36Fn) callName(call *ast.CallExpr) string {
@@ -270,11 +271,76 @@ func (f *c36Fn) exprEvents(e ast.Expr, node ast.Node, out *[]c36Ev) {
 	}
 }
 
+// unitStep: `x += 1`, `x -= 1`, `x = x + 1`, `x = 1 + x`, `x = x - 1` → +1 / -1.
+func (f *c36Fn) unitStep(v *ast.AssignStmt) (int, bool) {
+	if len(v.Lhs) != 1 || len(v.Rhs) != 1 {
+		return 0, false
+	}
+	one := func(e ast.Expr) bool { k, ok := constInt(f.info, e); return ok && k == 1 }
+	switch v.Tok {
+	case token.ADD_ASSIGN:
+		if one(v.Rhs[0]) {
+			return 1, true
+		}
+	case token.SUB_ASSIGN:
+		if one(v.Rhs[0]) {
+			return -1, true
+		}
+	case token.ASSIGN:
+		if b, ok := unparen(v.Rhs[0]).(*ast.BinaryExpr); ok {
+			switch {
+			case b.Op == token.ADD && f.c.sameExpr(b.X, v.Lhs[0]) && one(b.Y), b.Op == token.ADD && f.c.sameExpr(b.Y, v.Lhs[0]) && one(b.X):
+				return 1, true
+			case b.Op == token.SUB && f.c.sameExpr(b.X, v.Lhs[0]) && one(b.Y):
+				return -1, true
+			}
+		}
+	}
+	return 0, false
+}
+
+// errReturn: the list is exactly `return …, <non-nil error>`.
+func (f *c36Fn) errReturn(list []ast.Stmt) bool {
+	if len(list) != 1 {
+		return false
+	}
+	rs, ok := list[0].(*ast.ReturnStmt)
+	if !ok || len(rs.Results) == 0 {
+		return false
+	}
+	last := rs.Results[len(rs.Results)-1]
+	if tv, ok := f.info.Types[last]; ok && tv.IsNil() {
+		return false
+	}
+	return true
+}
+
 func (f *c36Fn) events(list []ast.Stmt) []c36Ev {
 	var out []c36Ev
 	for _, s := range list {
 		switch v := s.(type) {
 		case *ast.AssignStmt:
+			// the cursor / the stage moved by an assignment instead of ++ / --
+			if len(v.Lhs) == 1 && len(v.Rhs) == 1 && (f.isCharPos(v.Lhs[0]) || isField(f.info, v.Lhs[0], c36ObjT, "stage")) {
+				isStage := !f.isCharPos(v.Lhs[0])
+				if d, ok := f.unitStep(v); ok {
+					switch {
+					case isStage && d == 1:
+						out = append(out, c36Ev{kind: "stage++", node: s})
+					case isStage:
+						out = append(out, c36Ev{kind: "complex", node: s})
+					case d == 1:
+						out = append(out, c36Ev{kind: "advance", node: s})
+					default:
+						out = append(out, c36Ev{kind: "retreat", node: s})
+					}
+					continue
+				}
+				if k, ok := constInt(f.info, v.Rhs[0]); ok && isStage && v.Tok == token.ASSIGN {
+					out = append(out, c36Ev{kind: fmt.Sprintf("stage=%d", k), node: s})
+					continue
+				}
+			}
 			// slice = append(slice, x…)
 			if f.slice != nil && len(v.Lhs) == 1 && len(v.Rhs) == 1 {
 				if id, ok := unparen(v.Lhs[0]).(*ast.Ident); ok && f.info.ObjectOf(id) == f.slice {
@@ -329,6 +395,24 @@ func (f *c36Fn) events(list []ast.Stmt) []c36Ev {
 				out = append(out, c36Ev{kind: "guard", node: s})
 				continue
 			}
+			// `if c { <arm> } else { return …, err }` and `if c { return …, err } else { <arm> }`:
+			// the same guard with the rest of the arm inside the other branch
+			if eb, ok := v.Else.(*ast.BlockStmt); ok && v.Init == nil {
+				var rest []ast.Stmt
+				neg := false
+				switch {
+				case f.errReturn(eb.List) && !f.errReturn(v.Body.List):
+					rest, neg = v.Body.List, true
+				case f.errReturn(v.Body.List) && !f.errReturn(eb.List):
+					rest = eb.List
+				}
+				if rest != nil {
+					f.exprEvents(v.Cond, s, &out)
+					out = append(out, c36Ev{kind: "guard", node: s, neg: neg})
+					out = append(out, f.events(rest)...)
+					continue
+				}
+			}
 			out = append(out, c36Ev{kind: "complex", node: s})
 		case *ast.ReturnStmt:
 			out = append(out, c36Ev{kind: "return", node: s})
@@ -382,19 +466,38 @@ func (c *Ctx) c36Find(rule, name string) *c36Fn {
 		c.Undecided(rule, name+":shape", fd.Pos(), "%s: no rune loop at the top level of the function", name)
 		return nil
 	}
+	// runeDef: `r := tree.expression[tree.charPos]`
+	runeDef := func(s ast.Stmt) types.Object {
+		v, ok := s.(*ast.AssignStmt)
+		if ok && v.Tok == token.DEFINE && len(v.Lhs) == 1 && len(v.Rhs) == 1 {
+			if ix, ok := unparen(v.Rhs[0]).(*ast.IndexExpr); ok && isField(f.info, ix.X, c36ParserT, "expression") && f.isCharPos(ix.Index) {
+				if id, ok := v.Lhs[0].(*ast.Ident); ok {
+					return f.info.ObjectOf(id)
+				}
+			}
+		}
+		return nil
+	}
 	for _, s := range f.loop.Body.List {
 		switch v := s.(type) {
 		case *ast.AssignStmt:
-			if v.Tok == token.DEFINE && len(v.Lhs) == 1 && len(v.Rhs) == 1 {
-				if ix, ok := unparen(v.Rhs[0]).(*ast.IndexExpr); ok && isField(f.info, ix.X, c36ParserT, "expression") && f.isCharPos(ix.Index) {
-					f.rObj = f.info.ObjectOf(v.Lhs[0].(*ast.Ident))
-					continue
-				}
+			if o := runeDef(v); o != nil {
+				f.rObj = o
+				continue
 			}
 			c.Undecided(rule, name+":shape", s.Pos(), "%s: unrecognised statement in the rune loop: %s", name, c.src(s))
 			return nil
 		case *ast.SwitchStmt:
-			if v.Init != nil || f.sw != nil || v.Tag == nil {
+			if v.Init != nil {
+				// `switch r := tree.expression[tree.charPos]; r {`
+				o := runeDef(v.Init)
+				if o == nil || f.rObj != nil {
+					c.Undecided(rule, name+":shape", s.Pos(), "%s: the rune loop is not one `switch r`", name)
+					return nil
+				}
+				f.rObj = o
+			}
+			if f.sw != nil || v.Tag == nil {
 				c.Undecided(rule, name+":shape", s.Pos(), "%s: the rune loop is not one `switch r`", name)
 				return nil
 			}
@@ -843,6 +946,12 @@ func c36StoresIn(f *c36Fn, list []ast.Stmt) string {
 				if isField(f.info, v.X, c36ObjT, "stage") {
 					bad = append(bad, "stage"+v.Tok.String())
 				}
+			case *ast.AssignStmt:
+				for _, l := range v.Lhs {
+					if isField(f.info, l, c36ObjT, "stage") {
+						bad = append(bad, "stage"+v.Tok.String())
+					}
+				}
 			}
 			return true
 		})
@@ -966,10 +1075,16 @@ func (c *Ctx) c36Object(f *c36Fn) {
 			ifs := e.node.(*ast.IfStmt)
 			if x, op, kk, ok := cmpNorm(f.info, ifs.Cond); ok && isField(f.info, x, c36ObjT, "stage") {
 				p := intPred(op, kk)
-				if !p(0) && p(1) {
+				// rejected(stage): the arm fails at this stage
+				neg := e.neg
+				rejected := func(st int64) bool { return p(st) != neg }
+				if !rejected(0) && rejected(1) {
 					guardOK = true
 				}
 			}
+		}
+		if k == "stage=1" {
+			k = "stage++" // from the key stage (guard below) `o.stage = OBJ_STAGE_VALUE` is the same move
 		}
 		switch {
 		case k != "stage++":
@@ -1241,10 +1356,19 @@ func (c *Ctx) c36Number() {
 					continue
 				}
 				pos = cc.Pos()
-				if len(cc.Body) == 1 {
-					if rs, ok := cc.Body[0].(*ast.ReturnStmt); ok && len(rs.Results) == 1 {
+				// the arm is `return goStringRecast(string(t), dataType)`, possibly after defining locals
+				// (`s := string(t)`) that the call uses
+				onlyDefs := len(cc.Body) >= 1
+				for _, st := range cc.Body[:max(len(cc.Body)-1, 0)] {
+					if as, ok := st.(*ast.AssignStmt); !ok || as.Tok != token.DEFINE {
+						onlyDefs = false
+					}
+				}
+				if onlyDefs {
+					armDefs := localDefs(info, cc)
+					if rs, ok := cc.Body[len(cc.Body)-1].(*ast.ReturnStmt); ok && len(rs.Results) == 1 {
 						if call, ok := unparen(rs.Results[0]).(*ast.CallExpr); ok && callIs(info, call, mx("lang/types"), "", "goStringRecast") && len(call.Args) == 2 {
-							conv, isConv := unparen(call.Args[0]).(*ast.CallExpr)
+							conv, isConv := armDefs.resolve1(info, call.Args[0]).(*ast.CallExpr)
 							id, isID := unparen(call.Args[1]).(*ast.Ident)
 							if isConv && isID && info.ObjectOf(id) == dtParam {
 								if tv, ok := info.Types[conv.Fun]; ok && tv.IsType() {
@@ -1313,15 +1437,33 @@ func (c *Ctx) c36Number() {
 		}
 		return true
 	})
+	// every return of the arm that reports success (nil error) returns that float64 itself, and there is one
 	okRet := false
-	if n := len(arm.Body); n > 0 && fObj != nil {
-		if rs, ok := arm.Body[n-1].(*ast.ReturnStmt); ok && len(rs.Results) == 2 {
-			id, isID := unparen(rs.Results[0]).(*ast.Ident)
-			tv, okT := info.Types[rs.Results[1]]
-			if isID && info.ObjectOf(id) == fObj && okT && tv.IsNil() {
-				okRet = true
+	if fObj != nil {
+		nGood, nBad := 0, 0
+		ast.Inspect(arm, func(n ast.Node) bool {
+			if _, ok := n.(*ast.FuncLit); ok {
+				return false
 			}
-		}
+			rs, ok := n.(*ast.ReturnStmt)
+			if !ok {
+				return true
+			}
+			if len(rs.Results) != 2 {
+				nBad++
+				return true
+			}
+			if tv, okT := info.Types[rs.Results[1]]; !okT || !tv.IsNil() {
+				return true // failure return
+			}
+			if id, isID := unparen(rs.Results[0]).(*ast.Ident); isID && info.ObjectOf(id) == fObj {
+				nGood++
+			} else {
+				nBad++
+			}
+			return true
+		})
+		okRet = nGood > 0 && nBad == 0
 	}
 	c.Check(okRet, rule, "goStringRecast:Number", pf.Pos(), "goStringRecast's Number arm must return the float64 from strconv.ParseFloat(s, 64) unchanged with a nil error (as encoding/json does); anything else (int truncation, rounding, a different variable) changes JSON numbers")
 }
@@ -1334,8 +1476,25 @@ func (c *Ctx) c36Assembly() {
 	info := pk.TypesInfo
 	stageConst := func(e ast.Expr) (int64, bool) { return constInt(info, e) }
 	// slot(e): e is o.keyValue[<k>] -> k const or "stage"
+	// defs/allowCopy: e may be a local defined once as `&o.keyValue[k]` (or, for reads only, as the
+	// copy `o.keyValue[k]`)
+	var defs defMap
+	allowCopy := false
 	slot := func(e ast.Expr) string {
-		ix, ok := unparen(e).(*ast.IndexExpr)
+		e = unparen(e)
+		if st, ok := e.(*ast.StarExpr); ok {
+			e = unparen(st.X)
+		}
+		if id, ok := e.(*ast.Ident); ok && defs != nil {
+			if r := defs.resolve1(info, id); r != ast.Expr(id) {
+				if u, ok := r.(*ast.UnaryExpr); ok && u.Op == token.AND {
+					e = unparen(u.X)
+				} else if allowCopy {
+					e = r
+				}
+			}
+		}
+		ix, ok := e.(*ast.IndexExpr)
 		if !ok || !isField(info, ix.X, c36ObjT, "keyValue") {
 			return ""
 		}
@@ -1394,8 +1553,17 @@ func (c *Ctx) c36Assembly() {
 			okKey, okVal := false, false
 			keySlot, valSlot := "", ""
 			keyE := unparen(ix.Index)
-			if ta, ok := keyE.(*ast.TypeAssertExpr); ok {
-				keyE = unparen(ta.X)
+			for hop := 0; hop < 4; hop++ {
+				// <k>.(string), possibly held in a local defined once
+				if ta, ok := keyE.(*ast.TypeAssertExpr); ok {
+					keyE = unparen(ta.X)
+					continue
+				}
+				if d, ok := f.def1(keyE); ok && d.call == nil && d.expr != nil {
+					keyE = unparen(d.expr)
+					continue
+				}
+				break
 			}
 			if d, ok := f.def1(keyE); ok && d.call != nil && d.idx == 0 && callIs(info, d.call, mx("lang/types"), "", "ConvertGoType") && len(d.call.Args) == 2 {
 				if vc, ok := unparen(d.call.Args[0]).(*ast.CallExpr); ok && callIs(info, vc, mx(c36Pkg), "parseObjectKvT", "Value") {
@@ -1437,29 +1605,57 @@ func (c *Ctx) c36Assembly() {
 
 	// --- (kv).Value
 	if fd, _ := c.MustFunc(rule, c36Pkg, "parseObjectKvT", "Value"); fd != nil {
-		// if kv.Interface != nil || kv.IsNull { return kv.Interface }; return string(kv.Runes)
+		// Value returns kv.Interface exactly where (kv.Interface != nil || kv.IsNull) — decided by truth table
+		// over the two atoms, for `if C { return A }; return B` and `if C { return A } else { return B }`
 		ok1 := false
 		var pos token.Pos = fd.Pos()
-		if len(fd.Body.List) >= 1 {
-			if ifs, ok := fd.Body.List[0].(*ast.IfStmt); ok && ifs.Else == nil && len(ifs.Body.List) == 1 {
-				pos = ifs.Pos()
-				hasNN, hasNull := false, false
-				for _, d := range disjuncts(ifs.Cond) {
-					d = unparen(d)
-					if be, ok := d.(*ast.BinaryExpr); ok && be.Op == token.NEQ {
-						if v, owner := fieldOf(info, be.X); v != nil && owner == c36KvT && v.Name() == "Interface" {
-							if tv, ok := info.Types[be.Y]; ok && tv.IsNil() {
-								hasNN = true
-							}
-						}
-					}
-					if v, owner := fieldOf(info, d); v != nil && owner == c36KvT && v.Name() == "IsNull" {
-						hasNull = true
+		isIface := func(e ast.Expr) bool {
+			v, owner := fieldOf(info, e)
+			return v != nil && owner == c36KvT && v.Name() == "Interface"
+		}
+		atom := func(e ast.Expr) (string, bool, bool) {
+			e = unparen(e)
+			if be, ok := e.(*ast.BinaryExpr); ok && (be.Op == token.NEQ || be.Op == token.EQL) {
+				for _, pr := range [][2]ast.Expr{{be.X, be.Y}, {be.Y, be.X}} {
+					if tv, ok := info.Types[pr[1]]; ok && tv.IsNil() && isIface(pr[0]) {
+						return "nn", be.Op == token.EQL, true
 					}
 				}
-				if rs, ok := ifs.Body.List[0].(*ast.ReturnStmt); ok && len(rs.Results) == 1 {
-					if v, owner := fieldOf(info, rs.Results[0]); v != nil && owner == c36KvT && v.Name() == "Interface" && hasNN && hasNull {
-						ok1 = true
+			}
+			if v, owner := fieldOf(info, e); v != nil && owner == c36KvT && v.Name() == "IsNull" {
+				return "null", false, true
+			}
+			return "", false, false
+		}
+		single := func(list []ast.Stmt) ast.Expr {
+			if len(list) == 1 {
+				if rs, ok := list[0].(*ast.ReturnStmt); ok && len(rs.Results) == 1 {
+					return rs.Results[0]
+				}
+			}
+			return nil
+		}
+		if len(fd.Body.List) >= 1 {
+			if ifs, ok := fd.Body.List[0].(*ast.IfStmt); ok && ifs.Init == nil {
+				pos = ifs.Pos()
+				thenE := single(ifs.Body.List)
+				var elseE ast.Expr
+				if eb, ok := ifs.Else.(*ast.BlockStmt); ok && len(fd.Body.List) == 1 {
+					elseE = single(eb.List)
+				} else if ifs.Else == nil && len(fd.Body.List) == 2 {
+					elseE = single(fd.Body.List[1:])
+				}
+				if thenE != nil && elseE != nil && isIface(thenE) != isIface(elseE) {
+					tab, unk := truthTable(ifs.Cond, []string{"nn", "null"}, atom)
+					ok1 = len(unk) == 0
+					for m, v := range tab {
+						want := m != 0 // nn || null
+						if !isIface(thenE) {
+							want = !want
+						}
+						if v != want {
+							ok1 = false
+						}
 					}
 				}
 			}
@@ -1475,6 +1671,7 @@ func (c *Ctx) c36Assembly() {
 		}
 		var setNull, setIface, setFlag bool
 		var pos token.Pos = fd.Pos()
+		defs, allowCopy = localDefs(info, fd.Body), false
 		walkStack(fd.Body, func(n ast.Node, stack []ast.Node) bool {
 			as, ok := n.(*ast.AssignStmt)
 			if !ok || len(as.Lhs) != 1 || len(as.Rhs) != 1 {
@@ -1498,9 +1695,15 @@ func (c *Ctx) c36Assembly() {
 				if !ok || (be.Op != token.EQL && be.Op != token.NEQ) {
 					continue
 				}
-				id, ok := unparen(be.X).(*ast.Ident)
-				tv, okT := info.Types[be.Y]
-				if !ok || info.ObjectOf(id) != vParam || !okT || !tv.IsNil() {
+				isV := false
+				for _, pr := range [][2]ast.Expr{{be.X, be.Y}, {be.Y, be.X}} {
+					id, ok := unparen(pr[0]).(*ast.Ident)
+					tv, okT := info.Types[pr[1]]
+					if ok && info.ObjectOf(id) == vParam && okT && tv.IsNil() {
+						isV = true
+					}
+				}
+				if !isV {
 					continue
 				}
 				inThen := stack[i+1] == ast.Node(ifs.Body)
@@ -1529,6 +1732,7 @@ func (c *Ctx) c36Assembly() {
 		})
 		c.Check(setNull, rule, "UpdateInterface:null", pos, "UpdateInterface(nil) must record o.keyValue[o.stage].IsNull = true: a nil interface alone is indistinguishable from `no value yet`, so a JSON null is rejected as an undefined value")
 		c.Check(setIface, rule, "UpdateInterface:value", pos, "UpdateInterface(v) must store v in o.keyValue[o.stage].Interface")
+		defs = nil
 		c.Check(setFlag, rule, "UpdateInterface:valueset", pos, "UpdateInterface must mark the slot as set (ValueSet = true) on every path, so that a second token in the same slot is rejected instead of silently replacing the first")
 	}
 
@@ -1536,8 +1740,16 @@ func (c *Ctx) c36Assembly() {
 	if fd, _ := c.MustFunc(rule, c36Pkg, "parseObjectT", "IsValueUndefined"); fd != nil {
 		okNull, okIface := false, false
 		var pos token.Pos = fd.Pos()
-		if len(fd.Body.List) == 1 {
-			if rs, ok := fd.Body.List[0].(*ast.ReturnStmt); ok && len(rs.Results) == 1 {
+		// one return of a conjunction, possibly after defining locals for the slot (`val := &o.keyValue[VALUE]`)
+		onlyDefs := len(fd.Body.List) >= 1
+		for _, st := range fd.Body.List[:max(len(fd.Body.List)-1, 0)] {
+			if as, ok := st.(*ast.AssignStmt); !ok || as.Tok != token.DEFINE {
+				onlyDefs = false
+			}
+		}
+		if onlyDefs {
+			defs, allowCopy = localDefs(info, fd.Body), true
+			if rs, ok := fd.Body.List[len(fd.Body.List)-1].(*ast.ReturnStmt); ok && len(rs.Results) == 1 {
 				pos = rs.Pos()
 				for _, cj := range conjuncts(rs.Results[0]) {
 					cj = unparen(cj)
@@ -1547,12 +1759,18 @@ func (c *Ctx) c36Assembly() {
 						}
 					}
 					if be, ok := cj.(*ast.BinaryExpr); ok && be.Op == token.EQL {
-						if sl, fld := kvField(be.X); sl == "1" && fld == "Interface" {
-							okIface = true
+						for _, pr := range [][2]ast.Expr{{be.X, be.Y}, {be.Y, be.X}} {
+							if tv, ok := info.Types[pr[1]]; !ok || !tv.IsNil() {
+								continue
+							}
+							if sl, fld := kvField(pr[0]); sl == "1" && fld == "Interface" {
+								okIface = true
+							}
 						}
 					}
 				}
 			}
+			defs, allowCopy = nil, false
 		}
 		c.Check(okNull && okIface, rule, "IsValueUndefined", pos, "IsValueUndefined must be a conjunction over the VALUE slot that includes `Interface == nil` and `!IsNull`; without `!IsNull` every `\"k\": null` is rejected as an undefined value")
 	}
@@ -1683,10 +1901,12 @@ func (c *Ctx) c36Maker(arr *c36Fn) {
 						if j+1 < len(stack) && stack[j+1] == ast.Node(v.Body) {
 							for _, cj := range conjuncts(v.Cond) {
 								if be, ok := unparen(cj).(*ast.BinaryExpr); ok && be.Op == token.EQL {
-									call, isCall := unparen(be.X).(*ast.CallExpr)
-									k, isK := constInt(info, be.Y)
-									if isCall && isK && k == '.' && callIs(info, call, mx(c36Pkg), "ParserT", "nextChar") {
-										underNext = true
+									for _, pr := range [][2]ast.Expr{{be.X, be.Y}, {be.Y, be.X}} {
+										call, isCall := unparen(pr[0]).(*ast.CallExpr)
+										k, isK := constInt(info, pr[1])
+										if isCall && isK && k == '.' && callIs(info, call, mx(c36Pkg), "ParserT", "nextChar") {
+											underNext = true
+										}
 									}
 								}
 							}
